@@ -112,7 +112,7 @@ fn main() {
         }
         "C30" => {
             run.rule = "(a) method, getter and setter handlers (spawn default and spawn = false, &self and &mut self) that register / remove objects and emit signals through the object server, driven by 1..6 pipelined calls incl. Properties.Get/Set/GetAll; (b) a call fed 0..7 scheduler steps after at() returned, on a connection whose object server did or did not exist before; harness-owned scheduler; oracle: every call is answered before the system comes to rest (hang = nothing runnable with a call unanswered); handlers of spawn = false interfaces make no D-Bus method calls (documented precondition); non-trivial = every re-entrance case, and on-demand cases with a delay of at most 3 steps".into();
-            vec![spec("reenter", 8_000, 200_000, 120, c_dispatch::c30_reenter_case), spec("setup", 8_000, 200_000, 60, c_dispatch::c30_setup_case)]
+            vec![spec("reenter", 40_000, 600_000, 120, c_dispatch::c30_reenter_case), spec("setup", 8_000, 200_000, 60, c_dispatch::c30_setup_case)]
         }
         "C31" => {
             run.rule = "a caching proxy (one property marked uncached) built on a bus connection against a fake service that answers GetAll with its state at that moment, having emitted 0..3 PropertiesChanged signals before the reply and emitting 0..5 after it (changed / invalidated, for the proxied and for another interface, for the uncached property), the later ones delivered either in the same burst as the reply or after the proxy was built; harness scheduler; oracle: once everything has come to rest cached_property() of each property == fold(snapshot, later signals in receive order), invalidation clears, other interfaces and the uncached property never affect it; non-trivial = a change of a cached property on each side of the GetAll reply".into();
